@@ -30,7 +30,10 @@ def frac(x):
 
 
 def rstr(x):
-    return str(frac(x))
+    try:
+        return str(frac(x))
+    except (OverflowError, ValueError):
+        return "nonfinite"     # inf / nan: outside the exact model (division by zero, overflow)
 
 
 def gstr(z):
